@@ -29,7 +29,7 @@ TEXT = {
              "must address the element the reference designates. The C ring lives in an exactly-sized heap block and "
              "the C++ rings in their own exact allocations, so one slot outside is a sanitizer failure. In addition "
              "every (head, tail) pair of every ring size 2..17 (2..24 thorough) is reached through the API and every "
-             "single operation with every argument value is applied to it (whole bounded space). Nothing is "
+             "single operation with every argument value is applied to it (whole bounded space). Separate targets use ring sizes 250..262, 508..516, 41..300 and (byte rings) 65530..65542 with histories of 3*size+40 operations. Nothing is "
              "established beyond the explored histories and sizes.",
     "note": "Trusted: std::deque as the reference queue, clang ASan/UBSan. ring_getc may return the byte as signed "
             "or unsigned char (both accepted) as long as it is not -1, the 'empty' code. Not covered: operations "
